@@ -1,7 +1,7 @@
 #!/bin/sh
-# usage: confirm_seed.sh <PROP> <A|B>  — independently confirm a sub-agent's mutant from /tmp/mut-<PROP>-out/:
+# usage: [OUTDIR=<dir>] confirm_seed.sh <PROP> <A|B>  — independently confirm a sub-agent's mutant from $OUTDIR (default /tmp/mut-<PROP>-out/):
 # (1) patch applies to a clean worktree, (2) pinned test suite still passes, (3) demo fails with the patch, (4) demo passes without.
-P="$1"; X="$2"; OUT=/tmp/mut-$P-out; WT=/tmp/confwt.$$
+P="$1"; X="$2"; OUT="${OUTDIR:-/tmp/mut-$P-out}"; WT=/tmp/confwt.$$
 D=/verif/seeded/$P-$X; mkdir -p "$D"
 git -C /repo worktree add -q --detach "$WT" HEAD || exit 2
 cd "$WT"
